@@ -12,9 +12,9 @@ COMMON_NOTE = (
 
 PROPS = {
     "C01": dict(
-        text="Kernel-checked theorems that the model of _check_dims/_check_shape/__instancecheck_str__ accepts exactly the shapes the declarative dim-string semantics (Matches under one total assignment extending the context) accepts, for every dim list, shape, memo and history; the model is tied to the code by an exhaustive small-scope plus random differential run of verdicts and print_bindings() on histories of checks.",
+        text="Kernel-checked theorems that the model of _check_dims/_check_shape/__instancecheck_str__ accepts exactly the shapes the declarative dim-string semantics (Matches under one total assignment extending the context) accepts, for every dim list, shape, memo and history; the branch structure of _check_dims and of the multi-axis part of _check_shape is TRANSLATED from the current source on every run (harness/translate.py -> Generated/CheckCode.lean) and proved equal to the model's checkDim / vstep by scripts that survive meaning-preserving restructurings and fail on others; the model is tied to the code by an exhaustive small-scope plus random differential run of verdicts and print_bindings() on histories of checks.",
         note="Modelled not verified: numpy.broadcast_shapes (compared with JV.bcast on every run), eval of symbolic axes outside the integer fragment (+ - * // unary minus, {arg}), dict ordering.",
-        technique="Lean 4 proof (greedy walk = satisfiability, induction over axes and histories) + differential correspondence",
+        technique="Lean 4 proof (greedy walk = satisfiability, induction over axes and histories; source-to-model translation re-proved equal to the model on every run) + differential correspondence",
         design="§4 C01",
     ),
     "C02": dict(
@@ -28,8 +28,8 @@ PROPS = {
         technique="Lean 4 proof by kernel evaluation of the regenerated finite table + complete enumeration on the implementation",
     ),
     "C04": dict(
-        text="Kernel-checked theorems: an array check answering False / raising AnnotationError / raising any exception the handler covers returns the memo unchanged (wherever in the walk the mismatch is), the handler extracted from the current source covers BaseException and restores all four dictionaries, a passing array check is idempotent, and a PyTree check that does not answer True restores the memo whatever the leaf type; lifted to manual checks at any program point. On the real code: bindings before == after for every non-True check with the mismatch planted at every axis / leaf index and for raising variants (unbound symbolic / structure name, Exception and BaseException from {arg} formatting, custom flatteners, leaf __instancecheck__), and repetition of passing checks.",
-        note="Idempotence is proved for array annotations; for PyTrees it is evaluated on the implementation only. Exceptions raised by isinstance(obj, array_type) itself happen before any binding.",
+        text="Kernel-checked theorems: an array check answering False / raising AnnotationError / raising any exception the handler covers returns the memo unchanged (wherever in the walk the mismatch is), the handler extracted from the current source covers BaseException and restores all four dictionaries, a passing array check is idempotent, and so are a whole accepted pass over several annotated values and an accepted PyTree-of-arrays check (stability of accepted checks under the bindings later checks add), and a PyTree check that does not answer True restores the memo whatever the leaf type; lifted to manual checks at any program point. On the real code: bindings before == after for every non-True check with the mismatch planted at every axis / leaf index and for raising variants (unbound symbolic / structure name, Exception and BaseException from {arg} formatting, custom flatteners, leaf __instancecheck__), and repetition of passing checks.",
+        note="Idempotence is proved for array annotations, sequences of them and structure-less PyTrees of arrays; for PyTrees with structure names or non-array leaf types it is evaluated on the implementation only. Exceptions raised by isinstance(obj, array_type) itself happen before any binding.",
         technique="Lean 4 proof (rollback by case analysis of the walk; idempotence via stability of the walk under larger memos) + direct before/after evaluation",
     ),
     "C05": dict(
